@@ -24,7 +24,8 @@ RULE = ('Tripoli-4: listings = product of editions {1,2} x responses {1,2} x zon
         'patterns x {converged, not converged} x keff {absent, present, not converged}; for every edition (by number and by index) every '
         'dataset of the browser is compared cell by cell with the printed value, value*sigma%/100, increasing bin edges and the response / '
         'score / zone metadata (values are unique per edition, response, zone, time step and group so that a swap cannot cancel). '
-        'Apollo3: files = product of NOUT {1,2} x NZONE {1,2} x NG {1,2} x NISOT {0,1,2} x reactions {1,2} x total outputs present/absent; '
+        'Apollo3: files = product of NOUT {1,2} x NZONE {1,2} x NG {1,2} x NISOT {0,1,2} x reactions {1,2} x total outputs present/absent, plus 2-3 outputs on one shared geometry with equal / rotated isotope lists and '
+        'user-value files (flat / grouped local values); '
         'Reader.to_browser() and every Picker.pick_* are compared with the stored arrays. non-trivial = listings with a decreasing '
         'printing order, several editions/zones or a special value; files with more than one output/zone/isotope')
 ASSUMPTIONS = ['the generated listings cover the spectrum / time-spectrum / integrated / keff / not-converged layouts of the shipped examples, '
